@@ -258,7 +258,9 @@ def constraint(draw, coords, x0z, D, nonlinear, zs, p):
     kind = draw(st.sampled_from(list(p.get("cons_kinds", ("ball", "ball", "half", "band", "annulus", "union2", "checker")))))
     x0cls = draw(st.sampled_from(p["cons_x0"])) if x0z is not None else "margin"
     base = list(x0z) if x0z is not None else [0.0] * D
-    ret = draw(st.sampled_from(["real", "real", "bool", "real_col", "bool_col", "real_list", "bool_list", "barrier"]))
+    ret = draw(st.sampled_from(["real", "real", "bool", "real_col", "bool_col", "real_list", "bool_list", "barrier", "nanviol"]))
+    if ret == "nanviol" and (x0cls != "margin" or x0z is None):
+        ret = "real"  # (whether a start where the constraint is undefined counts as infeasible is not something the statement settles)
     a = [draw(st.sampled_from([1.0, -1.0, 0.5, 0.0])) for _ in range(D)]
     if not any(a):
         a[0] = 1.0
